@@ -73,7 +73,7 @@ CASE_CPU_SECONDS_QUICK = 120.0
 KINDS = ('in', 'inb', 'inmap', 'inbmap', 'inmix', 'inbmix', 'insortx',
          'inbvars', 'ingd', 'ingdx', 'inbgd', 'inempty', 'inbempty', 'if2', 'with', 'withonly', 'let', 'if', 'try', 'tryh',
          'tryf', 'fin', 'raise', 'sub', 'subtuple', 'subclient', 'tree', 'treex', 'treedm', 'treedp',
-         'treeed', 'subnone', 'innext', 'inprev', 'e-tryh', 'e-tryh0', 'e-try', 'e-tryelse', 'e-tryf',
+         'treeed', 'subnone', 'innext', 'inprev', 'tryhu', 'e-tryh', 'e-tryh0', 'e-try', 'e-tryelse', 'e-tryf',
          'e-fin', 'e-in', 'e-inb', 'e-inmap', 'e-inelse', 'e-with', 'e-let',
          'e-if', 'e-ifelse', 'e-raise', 'e-sub')
 LEAF_ONLY = ('withonly', 'tree', 'treex', 'treedm', 'treedp', 'treeed',
@@ -235,6 +235,13 @@ class Builder:
                  [T('e'), self.probe('e%d' % k)]]
         elif kind == 'tryh':
             ns['boom%d' % k] = ['raiser', 'boom%d' % k, 'HC', 'x']
+            n = ['try', [T('t'), ['var', N('boom%d' % k), []]],
+                 [[['HA'], inner]], None]
+        elif kind == 'tryhu':
+            # the handled exception's message (and so the traceback text
+            # the handler binds) has characters outside every codec
+            ns['boom%d' % k] = ['raiser', 'boom%d' % k, 'HC',
+                                'x\udcff\u20ac\u3000']
             n = ['try', [T('t'), ['var', N('boom%d' % k), []]],
                  [[['HA'], inner]], None]
         elif kind == 'tryf':
